@@ -15,7 +15,8 @@
                               descriptor having it as candidate, so a descriptor sharing a VC is dropped)
      MaxBoundsSelection       max=0 selects nothing, min>max is unsatisfiable  (code before the repairs of F9f/F9g: max=0
                               took all, min>max took max; TRUE in the descriptive configuration since)
-     ResolveChecksEveryEntry  verifier checks every descriptor_map entry       (code: last entry per id wins)
+     ResolveChecksEveryEntry  verifier checks every descriptor_map entry       (code before the repair of F9h: last entry per id
+                              won; TRUE in the descriptive configuration since)
      WalletNormalises         the wallet re-matches its own selection until it is reproduced (code: one pass; the
                               verifier re-runs the greedy first-match on the PRESENTED order and may pick otherwise)
    TLC proves the invariants for the prescriptive configuration; cases are generated from the descriptive one. *)
